@@ -101,7 +101,7 @@ def gen_dump(rng):
                     H.A('MACH_DISPATCH', H.NONE, (rng.choice(tids), 0, 4, 1)),
                 ))]
             else:
-                prog += H.scenario(rng, keyspace, kinds=('syscall', 'path', 'fault', 'threadname', 'single'), private_keys=True)
+                prog += H.scenario(rng, keyspace, kinds=('syscall', 'path', 'fault', 'threadname', 'single', 'gstring'), private_keys=True)
         programs.append(prog)
     order = H.random_interleaving(rng, programs)
     all_tids = tids + [undeclared]
@@ -183,16 +183,19 @@ def proc_text(tp, pn, tid):
 # oracles
 # ---------------------------------------------------------------------------------------------
 
-def check_composition(res, dump, kind, switches, wall):
-    """line(cfg) == concat(col_X for X enabled, in the fixed order) + body, for every configuration."""
+def check_composition(res, dump, kind, switches, wall, fixed=None):
+    """line(cfg) == concat(col_X for X enabled, in the fixed order) + body, for every configuration.  `fixed`: the other
+    settings of the object (event filters), the same for every configuration compared."""
+    fixed = dict(fixed or {})
+
     def lines(cfg):
-        p = front(cfg, wall=wall)
+        p = front(dict(fixed, **cfg), wall=wall)
         if kind == 'kevents':
             return list(p.formatted_kevents(io.BytesIO(dump['data'])))
         if kind == 'traces':
             return list(p.formatted_traces(io.BytesIO(dump['data'])))
         return list(p.formatted_callstacks(io.BytesIO(dump['data'])))
-    case = {'file': dump['data'], 'kind': kind, 'wall_clock': wall}
+    case = {'file': dump['data'], 'kind': kind, 'wall_clock': wall, 'fixed': {k: list(v) if isinstance(v, list) else v for k, v in fixed.items()}}
     try:
         body = lines({})
         only = {s: lines({s: True}) for s in switches}
@@ -211,7 +214,7 @@ def check_composition(res, dump, kind, switches, wall):
             cols[s] = []
             for l, b in zip(only[s], body):
                 if not l.endswith(b):
-                    res.violation('c14-column-alters-body', f'{kind}: with only {s} enabled the line {l!r} does not end with '
+                    res.violation('c14-column-alters-body', f'{kind}{" under the filters " + repr(fixed) if fixed else ""}: with only {s} enabled the line {l!r} does not end with '
                                   f'the body {b!r}', case)
                     return None
                 cols[s].append(l[:len(l) - len(b)])
@@ -235,7 +238,7 @@ def check_composition(res, dump, kind, switches, wall):
                 return None
         res.count('lines_composed', n)
     # one long-lived front-end object whose switches are toggled between requests
-    p = front({}, wall=wall)
+    p = front(dict(fixed), wall=wall)
     combos = list(itertools.product((False, True), repeat=len(switches)))
     for combo in [combos[-1], combos[0]] + [combos[(7 * k + 3) % len(combos)] for k in range(4)]:
         cfg = dict(zip(switches, combo))
@@ -542,6 +545,16 @@ def run(ctx):
                 check_callstack_columns(res, dump)
         if r is not None and not wall:
             check_process_column(res, dump, r[0])
+        # the same with event filters set on the object: the filters select lines, the switches select columns, and
+        # neither changes what a selected line's other columns or its body say
+        present = sorted({e.eventid >> 24 for e in dump['events']})
+        fixed = rng.choice(({'filter_class': [rng.choice(present)]}, {'filter_class': rng.sample(present, min(2, len(present)))},
+                            {'filter_subclass': [rng.choice(dump['events']).eventid >> 16]},
+                            {'filter_tid': rng.choice(dump['events']).tid},
+                            {'filter_class': [0x1f]}, {'filter_class': [4], 'filter_tid': rng.choice(dump['events']).tid}))
+        for kind in ('traces', 'callstacks'):
+            if check_composition(res, dump, kind, TRACE_SWITCHES, wall, fixed) is not None:
+                res.count('compositions_under_event_filters')
         check_colour(res, dump)
         if i % 2 == 0:
             cli_equals_api(res, rng, dump)
@@ -568,6 +581,7 @@ def run(ctx):
     res.require('reused_object_requests', 20)
     res.require('callstack_headers_checked', 10)
     res.require('long_dumps', 1)
+    res.require('compositions_under_event_filters', 10)
     res.require('cli_listings_compared', 12)
     res.require('concurrent_object_listings', 6)
     res.require('callstacks_of_threads_remapped_or_renamed_earlier', 1)
